@@ -32,6 +32,10 @@ CHECKS = {
             "fault enumeration over kill points: LD_PRELOAD shim numbers every state-changing system call of sync/fix and kills the process before/after/in the middle of call k, or raises SIGINT at the j-th parity write; oracles = data snapshot diff, content loadability, version-store recovery test, resume sync + parity oracle + recovery + check, twin comparison for fix",
             "Every state-changing call on data/parity/content files of sync and of fix is a kill point in three modes (all of them in thorough, stratified in quick), plus SIGINT at every parity write and kills after each content rename with slowed parity writers. After each interruption the properties' own clauses are evaluated: data untouched, a content file loads, earlier files recoverable meanwhile (adds-only), a second sync re-establishes parity validity and recoverability; for fix, a second run converges to the uninterrupted twin's tree.",
             "Kill = process death, page cache survives. Hash size 16 only (reduced hash sizes cannot represent the special ZERO hash the adds-only guarantee relies on; documented limitation). Open findings F15, F16, F17 are reported as KNOWN-FINDING by mechanism key."),
+    "C08": ("fault_enumeration",
+            "fault enumeration over I/O calls: LD_PRELOAD shim fails the read/write of an addressed (file, block offset) with EIO/ENOSPC during sync and scrub; oracles = exit status and summary tags, independently decoded content (block states, bad marks), status -G, repair sequence + parity oracle, comparison with the fault-free twin",
+            "Every data-file read and parity read/write of sync and scrub on small arrays is a fault point (first/middle/last and the last cache-depth stripes always; all of them in thorough), single and multiple faults, io-cache 1/3/8/default. For each: failing status + diagnostic, stripe not recorded synced-and-healthy, visible in status, repaired by fix -e / scrub -p bad / next sync, every other stripe as in the fault-free twin and valid under the parity oracle.",
+            "Faults are injected at the libc boundary once per (file, offset). Single split per level and hash size 16 here. Open findings F3/F3b (failed parity write leaves the stripe recorded synced) are reported as KNOWN-FINDING; reader-side and scrub faults are fully judged."),
     "C09": ("fault_enumeration",
             "runtime monitor: one ASan/UBSan process per content-file mutant (bits, truncations, bytes, field-aware varints/tags) with unchanged-state oracle; kill enumeration over every content-file system call through the LD_PRELOAD shim with old-or-new-version oracle and an ordering spec on the recorded event log",
             "Fault enumeration: every single bit and every truncation length of content files of 3 (quick) / 12 (thorough) shapes covering format 2 and 3 and all record kinds, plus field-aware damage aimed at length/count/position fields; each mutant is one process under ASan+UBSan and must be rejected with nothing modified. Every content-file system call of test-rewrite/touch/sync is a kill point (before/after/mid-write) for 1..7 copies; each copy must remain a complete old or new version. The save protocol (O_EXCL tmp, fsync, re-read to EOF, rename) is checked on every recorded event log.",
